@@ -46,6 +46,49 @@ func (p Profile) With(f func(*Profile)) Profile { f(&p); return p }
 
 func Scalar(r *RNG, p Profile) any { return Pick(r, p.Scalars) }
 
+// LongArrayPair returns two arrays of 10-30 (sometimes 95-130, 250-270) small
+// scalars that differ by one to three localised edits, placed by preference
+// at indices 9, 10, 19, 99, 100, 255, 256 and at the very end, so that
+// multi-digit index tokens and sizes around powers of two are exercised.
+func LongArrayPair(r *RNG) ([]any, []any) {
+	n := r.Range(10, 30)
+	switch r.Intn(6) {
+	case 0:
+		n = r.Range(95, 130)
+	case 1:
+		n = r.Range(250, 270)
+	}
+	a := make([]any, n)
+	for i := range a {
+		a[i] = float64(r.Intn(7))
+		if r.Chance(0.1) {
+			a[i] = Pick(r, []any{"s", true, nil})
+		}
+	}
+	b := append([]any{}, a...)
+	for e := r.Range(1, 3); e > 0; e-- {
+		m := len(b)
+		if m == 0 {
+			break
+		}
+		pos := Pick(r, []int{9, 10, 19, 29, 99, 100, 255, 256, m - 1, m - 2, r.Intn(m)})
+		if pos < 0 || pos >= m {
+			pos = m - 1
+		}
+		switch r.Intn(4) {
+		case 0:
+			b[pos] = "new"
+		case 1:
+			b = append(b[:pos:pos], b[pos+1:]...)
+		case 2:
+			b = append(b[:pos:pos], append([]any{"ins"}, b[pos:]...)...)
+		default:
+			b = b[:pos] // drop the tail from pos on
+		}
+	}
+	return a, b
+}
+
 // Doc generates a random document of depth <= p.MaxDepth.
 func Doc(r *RNG, p Profile) any { return doc(r, p, p.MaxDepth, true) }
 
